@@ -5,7 +5,7 @@ import random
 
 import z3
 
-from harness.common import Ctx, byte_obligation, mi, read_scenario
+from harness.common import Ctx, byte_obligation, io_cases, mi, read_scenario
 from oracles.mem import SymMem, SymOpaque
 from oracles import vdi as spec
 from symx import core, files, layouts, loader
@@ -117,10 +117,13 @@ def read_task(prop, cfg, tier, seed):
             g0=lambda mo: mi(mo, offset), spec_at=spec_at, unit=bs, rng=rng, maxlen=(lambda mo: mi(mo, length)) if cfg.get("tail") else None, j=j,
             opaque=("parent",) if has_parent else (),
             prefer=[nblocks <= 1 << 20] + ([length <= 16 << 20] if bs <= (4 << 20) else []))
+        ctx.scenario.wide = [offset >= 1 << 39]
         obj = m.VDI(fh, parent)
         res = obj._read(offset, length)
         sv = spec.guest_byte(offset + j, hdr_blocks_off, hdr_data_off, bs, mem, par)
         bad = byte_obligation(res, j, explen, sv, extra=[obj.size != disk_size], maxlen=length if cfg.get("tail") else None)
+        if cfg.get("io"):
+            bad += io_cases(fh.reads, 512 + 4 * nblocks + length, 2 + touched)
         if ctx.obligation(bad, "read differs from the guest-visible content"):
             ctx.witness()
 
